@@ -173,19 +173,14 @@ def check(run, F, tier):
 
     # ------------------------------------------------------------------ R5
     r5 = run.rule("C13-R5", "alias tables are created only in the handshake handlers, from a non-zero Topic Alias Maximum", floor=4)
-    creators = {}
-    for g in F.fns.values():
-        for b in g["blocks"]:
-            t = b["term"]
-            if t["k"] == "call" and "fn" in t["func"].get("const", {}):
-                pth = t["func"]["const"]["fn"]["path"]
-                if pth in (TAS + "new", TAR + "new"):
-                    owner = g["path"].split("::")[-1] if g.get("kind") != "Closure" else g["parent"].split("::")[-1]
-                    creators.setdefault(owner, []).append((g, pth))
     allowed = {"process_send_v5_0_connect", "process_send_v5_0_connack", "process_recv_v5_0_connect", "process_recv_v5_0_connack"}
-    for owner, lst in sorted(creators.items()):
-        if owner not in allowed:
-            r5.violation(owner, "topic alias table created in %s (allowed: handshake handlers only)" % owner)
+    # who may create: the handshake handlers, directly or through private helpers only they reach
+    offenders, via = conn.offending_callers(F, (TAS + "new", TAR + "new"), allowed)
+    for owner in sorted(offenders):
+        r5.violation(owner, "topic alias table created in %s (allowed: handshake handlers only)" % owner)
+    for owner in sorted(allowed):
+        if owner not in via:
+            r5.violation(owner, "%s no longer creates an alias table from Topic Alias Maximum" % owner)
             continue
         h = ms[owner]
         rs = conn.paths(F, h["path"])
@@ -196,25 +191,12 @@ def check(run, F, tier):
                 if e[1] not in (TAS + "new", TAR + "new"):
                     continue
                 n += 1
-                arg = conn.expand_all(rs["interned"], e[3][0])
-                nz = False
-                for k, cc in p.cons.items():
-                    ke = conn.expand_all(rs["interned"], k)
-                    if ke[0] == "cmp" and ke[1] == "Eq" and cc == ("eq", 0):
-                        ops = [ke[2], ke[3]]
-                        if arg in ops and any(o[0] == "c" and o[1] == 0 for o in ops):
-                            nz = True
-                    if ke[0] == "cmp" and ke[1] == "Lt" and cc == ("eq", 1) and ke[2][0] == "c" and ke[2][1] == 0 and ke[3] == arg:
-                        nz = True
-                if arg[0] == "sym":
-                    c = p.cons.get(arg[1])
-                    if c is not None and c[0] == "ne" and 0 in c[1]:
-                        nz = True
-                    for k, cc in p.cons.items():
-                        if k[0] == "cmp" and k[1] == "Lt" and k[2][0] == "c" and k[2][1] == 0 and k[3] == arg and cc == ("eq", 1):
-                            nz = True
-                if not nz:
+                # the maximum handed to the table is non-zero on this path, however the test is spelled
+                if conn.decide(p, rs["interned"], ("c", 0, "u16"), "lt", e[3][0]) is not True:
                     bad = p
+        if n == 0:
+            r5.violation(owner, "%s reaches no alias-table construction on any explored path" % owner)
+            continue
         if bad:
             r5.violation(owner, "%s creates an alias table without a dominating `Topic Alias Maximum != 0` test (TopicAliasSend::new(0) asserts)" % owner,
                          conn.path_summary(bad), site="%s:%s" % (h["file"], h["line"]))
@@ -222,6 +204,4 @@ def check(run, F, tier):
             r5.violation(owner, "%s: table creation not reached on any explored path" % owner)
         else:
             r5.ok(owner, {"creation_sites_on_paths": n})
-    for owner in allowed - set(creators):
-        r5.violation(owner, "%s no longer creates an alias table from Topic Alias Maximum" % owner)
     conn.prune_path_cache(F)
